@@ -4,10 +4,24 @@ package main
 
 import (
 	"github.com/modernizing/coca/pkg/verifrt"
+	"verif/checks"
 	"verif/engine"
 )
 
 func init() {
 	engine.Reset = verifrt.ResetAll
 	engine.StateDump = verifrt.StateAll
+	if verifMapOrder {
+		checks.SchedSet = func(f func(alts int, site string) int) { verifrt.Choose = f }
+		checks.SchedEvents = func(reset bool) []checks.SchedEvent {
+			var r []checks.SchedEvent
+			for _, e := range verifrt.Events {
+				r = append(r, checks.SchedEvent{Site: e.Site, Keys: e.Keys, Alts: e.Alts})
+			}
+			if reset {
+				verifrt.Events = nil
+			}
+			return r
+		}
+	}
 }
